@@ -188,6 +188,12 @@ def Committed (ht i : Nat) : Edit → Bool
 /-- the edit is confined to parts the hash type leaves uncommitted -/
 def Uncommitted (ht i : Nat) (e : Edit) : Bool := !Committed ht i e
 
+/-- an edit that writes one committable field: of an input, of an output, nLockTime or nVersion -/
+def isFieldSet : Edit → Bool
+  | .setPrevHash .. | .setPrevN .. | .setSequence .. | .setValue .. | .setSpk .. => true
+  | .setLockTime _ | .setVersion _ => true
+  | _ => false
+
 /-- the edit gives some committed part of `t` a different value -/
 def changes (ht i : Nat) (e : Edit) (t : Tx) : Prop :=
   ∃ p, committed ht i p = true ∧ p.get (apply e t) ≠ p.get t
